@@ -121,7 +121,7 @@ func planText(p txPlan) string { return treeText(p.tree) }
 
 // setup: a registered candidate, then random initial storage, GAS and NEO for the contracts,
 // sometimes votes, blocked accounts, whitelisted fees and a deployed auxiliary contract.
-func (v *env) setup(r *prng.R) {
+func (v *env) setup(r *prng.R, rich bool) {
 	halt := func(txs ...*transaction.Transaction) {
 		if len(txs) == 0 {
 			return
@@ -159,16 +159,16 @@ func (v *env) setup(r *prng.R) {
 		if len(prog) > 0 {
 			txs = append(txs, v.newTx(v.w.compileEntry([]*Node{{Op: nCall, C: i, Fl: 15, Body: prog}}), sysFee, false))
 		}
-		if r.Chance(4, 5) {
+		if rich || r.Chance(4, 5) {
 			amt := int64(r.Intn(21))
-			if r.Chance(2, 3) {
+			if rich || r.Chance(2, 3) {
 				amt += 1_0000_0000 // enough for Notary deposits
 			}
 			if amt > 0 {
 				txs = append(txs, natTx(v.w.gas, "transfer", sysFee, comm, v.comm.ScriptHash(), v.w.hashes[i], amt, nil))
 			}
 		}
-		if i < 3 && r.Chance(1, 2) {
+		if i < 3 && (rich || r.Chance(1, 2)) {
 			txs = append(txs, natTx(v.w.neo, "transfer", sysFee, comm, v.comm.ScriptHash(), v.w.hashes[i], int64(r.Range(1, 40)), nil))
 		}
 	}
@@ -207,7 +207,7 @@ func (v *env) setup(r *prng.R) {
 func runCase(o *hx.Out, k int, r *prng.R, corp []txPlan, natives bool) {
 	v := newEnv()
 	defer v.close()
-	v.setup(r)
+	v.setup(r, corp != nil)
 	if corp != nil {
 		v.runBlock(o, k, corp)
 		return
@@ -458,6 +458,11 @@ func main() {
 					o.Fail("harness-error", k, "%v", e)
 				}
 			}()
+			if c == nil && k%8 == 7 {
+				o.Count("case:native-cache-layering")
+				runCacheCase(o, k, r)
+				return
+			}
 			runCase(o, k, r, c, true)
 		}()
 	}
